@@ -8,6 +8,7 @@
 package zzvf
 
 import (
+	"bytes"
 	"sync"
 	"strings"
 	"encoding/hex"
@@ -623,6 +624,14 @@ func (f *nfiller) fill(v reflect.Value, depth int) {
 		}
 		n := 1
 		if me == f.focus {
+			if f.pattern&2 != 0 {
+				fb := Bytes(2)
+				b := bytes.Repeat([]byte{'a'}, fillLongLen)
+				b[0], b[fillLongLen-1] = fb[0], fb[1]
+				fillLong = true
+				settable(v).SetString(string(b))
+				return
+			}
 			n = Choose(3)
 		}
 		if n == 0 {
@@ -763,7 +772,16 @@ func (f *nfiller) fill(v reflect.Value, depth int) {
 // structs and slices of structs of the pack/step/service packages are allocated and
 // filled recursively (depth <= 3). Interfaces, maps, hmap and value types are left as
 // they are (the harness fills them). Returns the number of slots.
+const fillLongLen = 40000
+
+var fillLong bool
+
+// FillLong reports whether a Fill with pattern bit 2 met a plain string field at its focus and gave
+// it the long form (40000 bytes: first and last symbolic, 'a' between).
+func FillLong() bool { return fillLong }
+
 func Fill(p interface{}, focus int, pattern int) int {
+	fillLong = false
 	f := &nfiller{focus: focus, pattern: pattern}
 	f.fill(reflect.ValueOf(p).Elem(), 0)
 	return f.slot
